@@ -13,7 +13,7 @@ From DX Require Import GeneratedClassTable.
    (FusedIO indexes them by absolute partition numbers: fused_truthful) or the receiver cannot be partition-filtered
    (the root of a fused group of >= 2 blockwise members is never a source). *)
 Definition raw_divisions_reviewed : list (string * (string * string)) := [
-  ("FusedIO", ("_divisions", "self.operand('_expr')"));
+  ("FusedIO", ("_divisions", "expr"));     (* expr = self.operand("_expr"), after a test of expr.divisions (the selected ones) *)
   ("Fused", ("_divisions", "self.exprs[0]"));
   (* np.add(index, x) etc. delegate to the divisions rule of a freshly built Add/Sub/Mul/Div node: a Binop, never a source *)
   ("UFuncElemwise", ("_divisions", "binops[func](*self.args)")) ].
